@@ -34,7 +34,11 @@ SHAPES = [
     ("{A} AND ({B} AND {A})", 'AB'),
     ("{A} AND {A}", 'A'),
 ]
-NA, NS = len(ATOMS), len(SHAPES)
+NA, NS = len(ATOMS), len(SHAPES)      # the CrossHair-split space uses the first NA atoms
+# further atoms, run natively against every other atom (mapped_column_family): a model column that the ON clause maps to a table column AND that
+# the WHERE clause sets to a constant; the same with the constant first
+EXTRA_ATOMS = [("m.id = 7", 'model-eq', 'm', 'id', 7), ("8 = m.id", 'model-eq', 'm', 'id', 8)]
+ATOMS = ATOMS + EXTRA_ATOMS
 
 # statement frames: what the model is joined to, which model, how many models.  {ON} = the ON clause of the (first) model join
 FRAMES = [
@@ -485,3 +489,27 @@ def step_frame(frame, k, a, b, on_clause, using):
     with PL.NoTracing():
         pr, info = leaf(FRAME_SHAPES[k], a, b, c, on_clause, using, False, frame)
     return len(pr) + len(info.get('undecided', ()))
+
+
+def mapped_column_family():
+    """-> (leaves run, problems): the extra atoms (a model column mapped by ON and set by WHERE) x every other atom x the two-slot shapes x ON present x
+    both join orders x the frames"""
+    problems, n = [], 0
+    two_slot = [i for i, (t_, top) in enumerate(SHAPES) if '{C}' not in t_]
+    for xa in range(NA, len(ATOMS)):
+        for other in range(NA):
+            for sh in two_slot:
+                for a, b in ((xa, other), (other, xa)):
+                    for model_first in (False, True):
+                        for frame in (0, 2, 6):
+                            if frame and model_first:
+                                continue
+                            n += 1
+                            c = [x for x in range(NA) if x not in (a, b)][0]
+                            try:
+                                pr, info = leaf(sh, a, b, c, True, False, model_first, frame)
+                            except Exception as e:  # noqa
+                                pr, info = ['check crashed %r' % e], {}
+                            for p_ in pr:
+                                problems.append('%s: %s' % (info.get('sql'), p_))
+    return n, problems
